@@ -141,6 +141,7 @@ Definition named_units : list (string * unit) :=
     ("counts", mkU f1 d_counts);
     ("m/s^2", mkU f1 d_mps2); ("m/s**2", mkU f1 d_mps2);
     ("1/angstrom", mkU (fdec 1 10) (dscale (-1) d_m));
+    ("s/m", mkU f1 (dsub d_s d_m));
     ("barn", mkU (fdec 1 (-28)) (dscale 2 d_m));
     ("fm", mkU (fdec 1 (-15)) d_m) ].
 Fixpoint assoc {A} (k : string) (l : list (string * A)) : option A :=
@@ -418,6 +419,11 @@ Definition escale (e : elem) (k : F) : elem :=
   | EVec x y z => EVec (x *! k) (y *! k) (z *! k)
   | EMat a b c d e f g h i => EMat (a *! k) (b *! k) (c *! k) (d *! k) (e *! k) (f *! k) (g *! k) (h *! k) (i *! k)
   end.
+Definition eround (e : elem) : elem :=
+  match e with
+  | ENum x _ => ENum (frint O x) None
+  | _ => e
+  end.
 (* sc.to_unit(x, unit, copy=...) and x.to(unit=..., dtype=..., copy=...):
    the value is multiplied by the ratio of the multipliers; only defined for
    equal dimensions. *)
@@ -426,7 +432,10 @@ Definition sc_to_unit (x unit copy : val) : val :=
   | VErr e => VErr e
   | VVar e u d =>
       match as_unit unit with
-      | Some t => if deqb (ud u) (ud t) then VVar (escale e (us u /! us t)) t d
+      | Some t => if deqb (ud u) (ud t) then
+                    (* integer dtypes stay integer: scipp rounds the converted value to the nearest
+                       integer, ties away from zero (probed) *)
+                    VVar (if is_int d then eround (escale e (us u /! us t)) else escale e (us u /! us t)) t d
                   else VErr "UnitError"
       | None => match unit with VErr e' => VErr e' | _ => VErr "TypeError" end
       end
@@ -611,6 +620,8 @@ Definition named (s : string) : val :=
   match assoc s named_units with Some u => VUnit u | None => VErr "UnitError" end.
 Definition const_h : val := VVar (ENum (c_h O) None) (mkU f1 d_Js) DF64.
 Definition const_m_n : val := VVar (ENum (c_mn O) None) (mkU f1 d_kg) DF64.
+Definition sc_constants_h : val := const_h.
+Definition sc_constants_m_n : val := const_m_n.
 Definition const_pi : val := VVar (ENum (fpi O) None) u_one DF64.
 Definition np_pi : val := VFloat (fpi O).
 Definition math_pi : val := VFloat (fpi O).
